@@ -57,3 +57,5 @@ def replay(ob, repo, seed):
         if got != want:
             return dict(failing_input=dict(call=l, observed=got, expected=want), note='native execution of the real FeeParams::apply_fees disagrees with the statement')
     return dict(failing_input=None, note=f'{len(lines)} native executions of apply_fees agreed with the big-integer oracle (seed {seed})')
+
+FALLBACK_OBS = ['C02.FeeParams.apply_fees']
